@@ -155,6 +155,25 @@ class EndpointUrlArgsGenerator:
             writer.write_line("}")
             writer.write_line("")  # Add a blank line
 
+        # Cookie Parameters (sent with the request's cookies= argument; same shape as the header dictionary)
+        cookie_params = [p for p in ordered_params if p.get("param_in") == "cookie"]
+        if cookie_params:
+            context.add_import("typing", "Any")
+            context.add_import(f"{context.core_package_name}.utils", "DataclassSerializer")
+            writer.write_line("cookies: dict[str, Any] = {")
+            for p_info in cookie_params:
+                cookie_var = NameSanitizer.sanitize_method_name(p_info["name"])
+                cookie_name = py_string_literal(p_info["original_name"])
+                if p_info.get("required", False):
+                    writer.write_line(f"    {cookie_name}: str(DataclassSerializer.serialize({cookie_var})),")
+                else:
+                    writer.write_line(
+                        f"    **({{{cookie_name}: str(DataclassSerializer.serialize({cookie_var}))}} "
+                        f"if {cookie_var} is not None else {{}}),"
+                    )
+            writer.write_line("}")
+            writer.write_line("")  # Add a blank line
+
         # Request Body related local variables (json_body, files_data, etc.)
         # This part was in _write_url_and_args in the original, it sets up variables used by _write_request
         if op.request_body:
